@@ -184,10 +184,19 @@ def reneg_extension_required(chk):
         if len(wcr) != 1:
             raise AnalysisBroken('%s: comparison word not identified' % key)
         W_cr = next(iter(wcr))
-        callers = P.words_calling_word(W_cr)
-        if len(callers) != 1:
-            raise AnalysisBroken('%s: %d callers of the comparison word' % (key, len(callers)))
-        W_ch = callers[0]
+        # the hello-parsing word: it dispatches on the extension type 0xFF01 (renegotiation_info) and reaches the comparison word
+        def reaches(w, seen=None):
+            seen = seen or set()
+            if w == W_cr:
+                return True
+            if w in seen:
+                return False
+            seen.add(w)
+            return any(i.kind == 'call' and reaches(i.arg, seen) for i in P.words[w].ins.values())
+        cands = [w for w, W_ in P.words.items() if any(i.kind == 'const' and i.arg == 0xFF01 for i in W_.ins.values()) and reaches(w)]
+        if len(cands) != 1:
+            raise AnalysisBroken('%s: hello-parsing word not identified (%s)' % (key, cands))
+        W_ch = cands[0]
 
         class Cut(t0ai.Interp):
             def run_word(self, w, st, ctx):
